@@ -373,8 +373,12 @@ Schema::Evaluate(const std::string& input) const {
 }
 
 void Schema::TriggerParse(const EntityUID target) {
-  ParseCst(target);
   const auto expansion = Graph().ExpandOutputs({ target });
+  for (const auto uid : expansion) {
+    // Note: cached types of the target and its dependants are stale and must not be visible during re-analysis
+    info.at(uid).Reset();
+  }
+  ParseCst(target);
   const auto orderedList = Graph().Sort(expansion);
   for (const auto dependant : orderedList) {
     if (dependant != target) {
